@@ -19,17 +19,21 @@ text of one or two properties and a scratch git worktree of `/repo` (nothing fro
 deliver a patch that still builds and passes the 66 existing tests, needs something specific to
 manifest, and comes with a demonstration test. From round 2 on the agents were asked for combinations
 of conditions rather than single boundary values; in round 4 they were asked to aim at what a large
-randomized and boundary-value campaign would still miss. Every change was confirmed here with
+randomized and boundary-value campaign would still miss; in rounds 5 and 6 for plausible refactorings,
+optimisations and well-meant extra checks whose flaw needs a particular interleaving, fault point,
+multi-step sequence, unusual input or two cooperating code sites. Every change was confirmed here with
 `tools/confirmseed` (patch applies to HEAD; builds; existing tests pass with it; demonstration passes
 without and fails with it) before it was kept under `seeded/<id>/` (`patch.diff`, `demo_test.go.txt`,
 the agent's `README.md`, `meta.json`). The checks were run against each change in a scratch copy of
-`/repo` (`tools/tryseed`, `VERIF_REPO`); `/repo` itself was never modified. Rounds 2 to 4 were first
+`/repo` (`tools/tryseed`, `VERIF_REPO`); `/repo` itself was never modified. Rounds 2 to 6 were first
 run against the committed state *before* any strengthening (a `vp run` snapshot), so "caught at first"
 is an honest measure of what the machinery detected unprompted: %s.
 Every miss was analysed, the generators or the attribution of notes were strengthened (never a verdict
 loosened), the unchanged tree was re-checked for false alarms, and all of them are detected now
-(`bin/selftest --seeds` re-runs the whole matrix; one change, C07-r4a, needs the thorough tier because
-it only manifests on frames above 1 MiB).
+(`bin/selftest --seeds` re-runs the whole matrix; three changes, C07-r4a, C03-r5a and C07-r6, need the
+thorough tier because they only manifest on frames above 1 MiB). The falling rate of "caught at first"
+from round to round is the point of the exercise: each round was asked to evade what the earlier rounds
+had taught the machinery, and every miss became a new generator dimension or a sharper rule.
 
 What the misses taught, by theme:
 
@@ -60,6 +64,26 @@ What the misses taught, by theme:
   frame of a sequence not returned or an earlier packet of the stream changed = C06; wrong subscription
   identifier = C15 as well as C03; an Undefined that lost its bytes = C16; the frame of a setter
   history = C12; a hang is booked to the operation that hung).
+
+* **State left behind** (rounds 5 and 6). Caches filled by an earlier `WriteTo` / `String` (C02-r5a,
+  C10-r6), setter order (C01-r5b), edits through the slice an accessor returned (C10-r5a, C17-r5b),
+  packets decoded then modified, values decoded into twice, frames read after the caller overwrote what an
+  accessor handed out (C03-r6), packets that keep growing while later frames are read (C05-r6), pooled
+  buffers after a failed write (C18-r6b) or a failed read (C13-r6): `MC_API` now also starts from a packet
+  carrying every field, written or printed before (`apifull`), and from the decoded packet (`apidec`);
+  long streams with one packet kept (`seqlong`); faults before the concurrent phase.
+* **The environment is part of the input.** `ReadPacket` through `*bufio.Reader` of default and minimal
+  size, `bytes.Reader`, `bytes.Buffer`, `strings.Reader`, `io.LimitedReader`, a reader with `ReadByte`
+  (C08-r5a, C06-r6, C16-r6); writers that also offer `WriteByte` / `WriteString` / `ReadFrom`; the
+  streaming integer decoder under zero-length reads and `io.EOF` with the last byte (C15-r6).
+* **Content, not only shape.** Texts MQTT gives a meaning to, every UTF-8 sequence length, texts that
+  mean something to formatters or repeat parts of the rendering, in every text field of every packet
+  type (C17-r5a, C03-r5b, C19-r5a/b, C18-r5a/b): `DictTexts` x `TextPkts`.
+* **The oracle itself.** A frame with a property that is defined but foreign to the packet was "either";
+  a must-reject fault *behind* such a property makes it must-reject for every decoder (C09-r6): the
+  verdict now also takes the lenient reading (`MQTTWire!LenientDecode`).
+* **Panics while observing** are events of their own (C19-r5a), and "what was set" (`wanted`) is kept apart
+  from the model state that is re-synchronised after a C12 divergence (C01-r5b).
 
 | seeded change | property | needs to manifest | caught at first | history |
 |---|---|---|---|---|
